@@ -3,6 +3,8 @@ package main
 import (
 	"errors"
 	"fmt"
+	"os"
+	"os/exec"
 	"strings"
 	"time"
 
@@ -214,6 +216,31 @@ func init() {
 		_ = e.BuildRoleLinks()
 		after, _ := e.Enforce("alice", "d", "read")
 		return !after, fmt.Sprintf("before BuildRoleLinks=%v after=%v (fresh enforcer: true)", before, after)
+	}
+	// D28: a self-referential eval() rule overflowed the stack (fatal, not recoverable)
+	witnesses["D28-eval-self-reference"] = func() (bool, string) {
+		if os.Getenv("VERIF_D28_CHILD") == "1" {
+			text := strings.Replace(strings.Replace(rbacText, "p = sub, obj, act", "p = sub_rule, obj, act", 1), "g(r.sub, p.sub)", "eval(p.sub_rule)", 1)
+			e, _ := casbin.NewEnforcer(mustModel(text))
+			e.AddPolicy("eval(p.sub_rule)", "d", "read")
+			ok, err := e.Enforce("alice", "d", "read")
+			if err != nil && !ok {
+				return false, "error reported: " + err.Error()
+			}
+			return true, fmt.Sprintf("decision=%v err=%v", ok, err)
+		}
+		// run in a child process: the defect is a fatal stack overflow
+		cmd := exec.Command(os.Args[0], "finding:D28-eval-self-reference", "quick", "0", os.TempDir())
+		cmd.Env = append(os.Environ(), "VERIF_D28_CHILD=1", "GOMEMLIMIT=512MiB")
+		out, err := cmd.CombinedOutput()
+		tail := string(out)
+		if len(tail) > 200 {
+			tail = tail[:200]
+		}
+		if err != nil {
+			return true, "child process died or reported failure: " + tail
+		}
+		return false, strings.TrimSpace(tail)
 	}
 	// D8: ClearPolicy kept role links
 	witnesses["D8-clearpolicy-links"] = func() (bool, string) {
